@@ -8,6 +8,7 @@ import NixModel.Drive.Array
 import NixModel.Drive.Store
 import NixModel.Drive.Modes
 import NixModel.Drive.Crash
+import NixModel.Drive.Ids
 /-
   nixmodel: reads a trace (op lines with the implementation's recorded result after `=>`),
   replays each op on the Lean model, evaluates the property relations on the implementation's
@@ -44,6 +45,9 @@ def step (st : DState) (line : String) : DState × Option String :=
     | some (st', o) => (st', some o.render)
     | none =>
     match Crash.handle st op args impl with
+    | some (st', o) => (st', some o.render)
+    | none =>
+    match Ids.handle st op args impl with
     | some (st', o) => (st', some o.render)
     | none => (st, some Out.unknown.render)
 
